@@ -47,6 +47,36 @@ pub fn waitpid<P: Into<Option<Pid>>>(pid: P, options: Option<WaitPidFlag>) -> ni
     nix::sys::wait::waitpid(pid, options)
 }
 
+pub type JobOrder = Box<dyn FnMut(&mut Vec<(i32, Job)>)>;
+
+thread_local! {
+    static JOB_ORDER: RefCell<Option<JobOrder>> = RefCell::new(None);
+}
+
+/// Install (or remove) a callback that decides in which order
+/// `jobc::try_wait_bg_jobs` visits the jobs (a hash map in the shell, i.e.
+/// an arbitrary order in production).
+pub fn install_job_order(f: Option<JobOrder>) {
+    JOB_ORDER.with(|c| *c.borrow_mut() = f);
+}
+
+/// The seam used by `jobc::try_wait_bg_jobs`: without a callback the jobs
+/// come in the hash map's own order, exactly as without this hook.
+pub fn ordered_jobs(jobs: std::collections::HashMap<i32, Job>) -> Vec<(i32, Job)> {
+    let mut v: Vec<(i32, Job)> = jobs.into_iter().collect();
+    let f = JOB_ORDER.with(|c| c.borrow_mut().take());
+    if let Some(mut f) = f {
+        f(&mut v);
+        JOB_ORDER.with(|c| {
+            let mut slot = c.borrow_mut();
+            if slot.is_none() {
+                *slot = Some(f);
+            }
+        });
+    }
+    v
+}
+
 pub fn parse_line(line: &str) -> LineInfo {
     crate::parsers::parser_line::parse_line(line)
 }
